@@ -304,6 +304,9 @@ C20_only_grow(o) ==
         /\ Head(o.post[t].results).path = o.cmd.rclean
         /\ Head(o.post[t].results).summary = Trim(o.cmd.rsum)
 C20_confined(o) == o.cmd.name \in {"set", "new_task"} /\ o.cmd.rpath # ABSENT /\ o.exit = 0 => o.cmd.rpathok
+\* sha256 = hash of the file, file_url = file:// URL of its absolute path
+\* (byte-level facts computed by the harness for every result it displays)
+C20_faithful(o) == o.faithful
 C20_live_only(o) == o.cmd.name = "set" /\ o.cmd.rpath # ABSENT /\ o.cmd.id \notin VTasks(o.pre) => Failed(o)
 
 (***************************************************************************)
